@@ -1316,6 +1316,12 @@ static void uv__stream_connect(uv_stream_t* stream) {
         uv__queue_empty(&stream->write_queue) &&
         uv__queue_empty(&stream->write_completed_queue))
       uv__drain(stream);
+  } else if (!uv__queue_empty(&stream->write_completed_queue)) {
+    /* Requests that had finished before this connect was started are still
+     * waiting for their callbacks; the wake-up that was meant for them ended
+     * up here. Hand it back: the next run of the pending queue gets to
+     * uv__write_callbacks(). */
+    uv__io_feed(stream->loop, &stream->io_watcher);
   }
 }
 
